@@ -267,6 +267,7 @@ sys.path.insert(0, sys.argv[1] + '/src')
 from chameleon.zpt.template import PageTemplate
 t = PageTemplate('<a metal:define-macro="foo">F1</a><b metal:define-macro="bar">B1</b>')
 before = sorted(t.macros.names)
+t._cooked = False        # what BaseTemplateFile.cook_check does when the file has changed
 t.cook('<b metal:define-macro="bar">B2</b>')
 after = sorted(t.macros.names)
 try:
@@ -300,13 +301,29 @@ def cook_drops_stale(spec):
             removes.append(n.lineno)
     mentions_prefix = any(isinstance(n, ast.Constant) and isinstance(n.value, str) and n.value.startswith('_render')
                           for n in ast.walk(fn))
-    ok = bool(removes) and mentions_prefix
+    # the sweep happens on EVERY cook: it is not conditional on the instance's state (a file template
+    # is marked un-cooked just before it is cooked again)
+    par = {}
+    for n in ast.walk(fn):
+        for ch in ast.iter_child_nodes(n):
+            par[ch] = n
+    state_guards = []
+    for n in ast.walk(fn):
+        if isinstance(n, ast.Call) and isinstance(n.func, ast.Name) and n.func.id == 'delattr':
+            cur = n
+            while cur in par:
+                cur = par[cur]
+                if isinstance(cur, (ast.If, ast.While)):
+                    t = ast.unparse(cur.test)
+                    if 'self.' in t.replace('self.__dict__', ''):
+                        state_guards.append(t)
+    ok = bool(removes) and mentions_prefix and not state_guards
     o = ob('cook.drops_stale_functions', ok,
            'BaseTemplate.cook removes the render functions (`_render_*`, i.e. the macros) of the previous '
            'compilation that the new one does not define: "macros ... all from that version and nothing '
            'from earlier ones"',
            {'removal_statements_at_lines': removes, 'mentions__render_prefix': mentions_prefix,
-            'function_line': fn.lineno})
+            'removal_conditional_on_instance_state': state_guards, 'function_line': fn.lineno})
     if not ok:
         env = dict(os.environ)
         env.pop('PYTHONPATH', None)
@@ -318,7 +335,8 @@ def cook_drops_stale(spec):
             d = None
         if d and (d['foo_still_served'] or 'foo' in d['macros_after_recook_with_only_bar']):
             o['confirmed'] = True
-            o['witness'] = {'inputs': {'history': "cook(v1 defining macros foo, bar); cook(v2 defining only bar)"},
+            o['witness'] = {'inputs': {'history': "cook(v1 defining macros foo, bar); mark un-cooked (file changed); "
+                                                  "cook(v2 defining only bar)"},
                             'detail': json.dumps(d)}
     return {'unit': 'frames.cook_drops_stale', 'function': 'template.py::BaseTemplate.cook',
             'obligations': [o], 'wall': time.time() - t0,
